@@ -21,10 +21,12 @@ try:
             rc, out = sh("cd /verif && VERIF_REPO=%s VERIF_OUTDIR=%s VERIF_BUILD_TAG=-mx%s ./check %s" % (wt, out_dir, name, c))
             v = [l for l in out.splitlines() if l.startswith("VIOLATION")]
             res["checks"][c] = rc
+            if v:
+                res.setdefault("claim", {})[c] = "tie" if v[0].rstrip().endswith("no-failing-input-found") else "CONCRETE"
             if v and "replay=" in v[0]:
                 try:
                     rp = json.load(open(v[0].split("replay=")[1].split()[0]))
-                    res.setdefault("why", {})[c] = [str(x)[:220] for x in (rp.get("failures") or rp.get("mismatches") or rp.get("broken") or [rp.get("error", "")])[:2]]
+                    res.setdefault("why", {})[c] = [str(x)[:220] for x in (rp.get("failures") or rp.get("mismatches") or rp.get("broken") or rp.get("dead_levers") or [rp.get("error", "")])[:2]]
                 except Exception:
                     pass
 finally:
